@@ -322,7 +322,31 @@ def rule_leaf_as_committed(ctx: Ctx, rep: Report) -> None:
     rep.floor(rule, 2)
 
 
+def rule_node_arity(ctx: Ctx, rep: Report) -> None:
+    """C12.node_arity: the output key commits to the tree the caller wrote: a node
+    is a leaf (one element) or a branch of exactly two subtrees. tree_helper
+    reads `script_tree[0]` and `script_tree[1]` of a branch only past a refusal
+    of every other length -- else the third subtree of a three-element node is
+    silently left out of the commitment, and an empty node is an IndexError."""
+    from sa.ranges import refusal_constraints, has
+    rule = "C12.node_arity"
+    fi = ctx.func(f"{T}.tree_helper")
+    p0 = fi.params()[0]
+    cs = refusal_constraints(ctx, fi)
+    g = ctx.cfg(fi)
+    gate = has(cs, f"len({p0})", "!=", 2)
+    rep.ob(rule, "tree_helper:refusal", gate is not None, fi.where(), "a node whose length is not 2 (and not 1) is refused" if gate is not None else
+           f"no refusal of a branch whose length is not 2 (refusals: {[c.show() for c in cs][:4]}): a third subtree is dropped from the commitment")
+    reads = [x for x in own_nodes(fi.node) if isinstance(x, ast.Subscript) and isinstance(x.value, ast.Name) and x.value.id == p0 and ctx.fold(x.slice, fi.module) == 1]
+    if gate is not None and gate.test_id >= 0:
+        for x in reads:
+            ok = g.path_avoiding(g.nodes_containing(x), [gate.test_id]) is None
+            rep.ob(rule, "tree_helper:read_after_refusal", ok, fi.where(x), f"`{norm(x)}` is read past the refusal")
+    rep.floor(rule, 1)
+
+
 RULES = [
+    ("C12.node_arity", rule_node_arity),
     ("C12.leaf_as_committed", rule_leaf_as_committed),
     ("C12.loose_to_strict", rule_loose_to_strict_),
     ("C12.coercion_used", rule_coercion_used_),
